@@ -201,6 +201,7 @@ def c10(ctx):
                 "re-marshalled (fixed point). Non-trivial = output with a separator or after an edit.")
     edit_replay(ctx, "marshal_q" if quick(ctx) else "del_t", "C10")
     edit_replay(ctx, "bytes", "C10")          # every byte < 0x80 and multi-byte UTF-8 as key and as value
+    edit_replay(ctx, "bytepos", "C10")        # every byte < 0x80 at every position 0..17 of a padded string; pairs of escapes
     edit_replay(ctx, "nonfinite", "C10")      # SetFloat(NaN / +Inf / -Inf): marshalling must fail
     if not quick(ctx):
         edit_replay(ctx, "set_t", "C10")
